@@ -303,29 +303,37 @@ def run_history(h, fresh_oracle=True):
             return 'COORD'
         except Exception as ex:  # noqa: BLE001
             return 'PYERR ' + type(ex).__name__
-    try:
+    def _fresh_copy(sname, like):
+        """a never-used copy of the derivative object in slot [sname], in the same symbolic state as [like]"""
+        wf = World(h)
         for op in h['ops']:
-            if op[0] in ('mkpartial', 'mkpartialobj', 'mkderiv', 'mkdiff'):
-                try:
-                    w3.do(op)
-                except Exception:  # noqa: BLE001
-                    pass
+            if op[0] in ('mkpartial', 'mkpartialobj', 'mkderiv', 'mkdiff') and op[1] == sname:
+                wf.do(op)
+        copy = wf.slots.get(sname)
+        if copy is None:
+            return None, wf
+        part_u = like._partial if isinstance(like, Derivative) else like
+        part_c = copy._partial if isinstance(copy, Derivative) else copy
+        if isinstance(part_u, Partial) and part_u._synthetic_partial is not None and part_c._synthetic_partial is None:
+            CATCH.hit = False
+            part_c.as_expression()
+            if CATCH.hit:
+                return None, wf          # the step budget was hit: KF-BUDGET territory, judged by C09
+        return copy, wf
+    try:
         for sname, used in w.slots.items():
-            copy = w3.slots.get(sname)
-            if used is None or copy is None:
+            if used is None:
                 continue
-            part_u = used._partial if isinstance(used, Derivative) else used
-            part_c = copy._partial if isinstance(copy, Derivative) else copy
-            if isinstance(part_u, Partial) and part_u._synthetic_partial is not None and part_c._synthetic_partial is None:
-                CATCH.hit = False
-                part_c.as_expression()
-                if CATCH.hit:
-                    continue          # the step budget was hit: KF-BUDGET territory, judged by C09
             found = False
-            for kp, qp in enumerate(w3.points):
-                for k, q in enumerate(w3.points):
-                    _kind(used, qp)           # whatever was asked before (here: the same object at another point) ...
-                    ku, kc = _kind(used, q), _kind(copy, q)      # ... the answer at q is that of a fresh copy
+            npts = len(w.points)
+            for kp in range(npts):
+                for k in range(npts):
+                    _kind(used, w.points[kp])     # whatever was asked before (here: the same object at another point) ...
+                    ku = _kind(used, w.points[k])
+                    copy, wf = _fresh_copy(sname, used)
+                    if copy is None:
+                        continue
+                    kc = _kind(copy, wf.points[k])   # ... the answer at this point is that of a never-used copy
                     if ku != kc and not ku.startswith('PYERR') and not kc.startswith('PYERR'):
                         final.append({'slot': sname, 'after_point': kp, 'at_point': k, 'used_object': ku, 'fresh_copy': kc})
                         found = True
